@@ -102,7 +102,7 @@ class C11(object):
     rule = ("one run = (image 2x2..64x64 incl. checkerboards/spirals/combs/isolated grids, threshold possibly equal to "
             "a pixel value) through dense(8), dense(4), sparse and splat kernels under (team, strategy, interleaving, "
             "garbage, initial disjoint-set capacity 4..16384, moving/staying realloc); distinct = distinct (image "
-            "digest, threshold, capacity, realloc mode, team); non-trivial = at least one above-threshold pixel; also: a second simulated Python thread labelling another frame, SparseScan.cplabel scans, a labelimage object labelling a series with empty/dark/tie frames, a from_data_cut / threshold / sparse_connected_pixels story")
+            "digest, threshold, capacity, realloc mode, team); non-trivial = at least one above-threshold pixel; also: a second simulated Python thread labelling another frame, SparseScan.cplabel scans, a labelimage object labelling a series with empty/dark/tie frames, a from_data_cut / threshold / sparse_connected_pixels story incl. sibling frames made with one header")
     components = {"real": enginea.COMPONENTS_REAL + ["connectedpixels, sparse_connectedpixels, sparse_connectedpixels_splat, "
                                                        "dset_* (blobs.c)"],
                   "stub": enginea.COMPONENTS_STUB + ["initial disjoint-set capacity (call-site wrapper of dset_initialise)"]}
